@@ -186,6 +186,11 @@ def rule_order_id_json(ctx, chk, rid):
             continue
         ss = [e for e in r.trace if e[0] == "call" and e[1].endswith("serialize_str")]
         ok = len(ss) == 1 and "to_string" in short(argv(ss[0])[1]) and any(s == ("ref", ("pl", ("obj", ("param", 1)), ()), False) for s in subterms(argv(ss[0])[1]))
+        if not ss:
+            # `serializer.collect_str(self)`: serde's documented equivalent of serialize_str(&self.to_string())
+            cs = [e for e in r.trace if e[0] == "call" and e[1].endswith("collect_str")]
+            ok = len(cs) == 1 and argv(cs[0])[1] == ("ref", ("pl", ("obj", ("param", 1)), ()), False)
+            ss = cs
         chk.require(ok, rid, "OrderId:writes-to_string", sb.span, "OrderId serializes %s" % [short(argv(e)[1])[:80] for e in ss])
     dbo = db.method("OrderId", "deserialize", trait="Deserialize")
     reach = cg.reach([dbo.defp])
